@@ -52,6 +52,10 @@ fn main() {
                 "c14" => checks::c14::replay(w.case.as_ref().expect("witness without case")),
                 "c22" => checks::c22::replay(w.case.as_ref().expect("witness without case")),
                 "c23" => checks::c23::replay(w.case.as_ref().expect("witness without case"), &w.extra),
+                "c08" => checks::c08::replay(&w.extra),
+                "c07" => checks::c07::replay(&w.extra),
+                "c16" => checks::c16::replay(&w.extra),
+                "c18" => checks::c18::replay(&w.extra),
                 "c15" => checks::c15::replay(w.case.as_ref().expect("witness without case"), &w.extra),
                 "c21" => checks::c21::replay(w.case.as_ref().expect("witness without case")),
                 "c13" => checks::c13::replay(w.case.as_ref().expect("witness without case")),
@@ -90,6 +94,12 @@ fn main() {
                 "C01" => checks::c01::run(&mut report, seed, cases),
                 "C09" => checks::c09::run(&mut report, seed, cases),
                 "C22" => checks::c22::run(&mut report, seed, cases),
+                "C18" => checks::c18::run(&mut report, seed, cases),
+                "C16" => checks::c16::run(&mut report, seed, cases, param("--slice", 0)),
+                "C07" => checks::c07::run(&mut report, seed, cases, param("--variable-values", 6) as usize, param("--slice", 0)),
+                "C06" => checks::c06::run(&mut report, seed, cases, param("--exhaustive", 0) == 1, (param("--slice", 0), param("--of", 1))),
+                "C08" => checks::c08::run(&mut report, seed, cases, (param("--slice", 0), param("--of", 1))),
+                "C17" => checks::c17::run(&mut report, (param("--slice", 0), param("--of", 1))),
                 "C23" => checks::c23::run(&mut report, seed, cases),
                 "C14" => {
                     let d = checks::c14::run(&mut report, seed, cases);
